@@ -82,4 +82,5 @@ ASSUME SizeOf(RadL) = 28 /\ SizeOf(GenL) = 28 /\ SizeOf(VcpHeaderL) = 22 /\ Size
 ASSUME SizeOf(RdaL) = 120 /\ SizeOf(CfmHeaderL) = 6 /\ SizeOf(VolumeHeaderL) = 24
 ASSUME \A nm \in DOMAIN Layouts : Cardinality(Names(Layouts[nm])) = Len(Layouts[nm])      \* names distinct
 ASSUME \A a, b \in Products : a # b => BlockNames[a] # BlockNames[b]
+ASSUME ChunkInvariance(<<0, 1, 2, 3, 4, 5>>) /\ Cardinality(Chunkings(<<0, 1, 2, 3, 4, 5>>)) = 32              \* every way a reader can deliver six bytes
 =============================================================================
